@@ -38,7 +38,11 @@ pub fn cmd_sites(args: &[String]) -> i32 {
             input.push(x as u8);
             input.extend_from_slice(&suf);
             let o = calls::call(name, &a, &input);
-            let got = o.as_ref().and_then(|o| if o.res["k"] == "ok" { navigate(&o.res["v"], path).cloned() } else { None });
+            // a path "a+b" reads a 16-bit value held as two byte-sized fields (high byte at a, low byte at b)
+            let got = o.as_ref().and_then(|o| if o.res["k"] != "ok" { None } else if let Some((pa, pb)) = path.split_once('+') {
+                match (navigate(&o.res["v"], pa).and_then(|x| x.as_u64()), navigate(&o.res["v"], pb).and_then(|x| x.as_u64())) {
+                    (Some(h), Some(l)) if h < 256 && l < 256 => Some(json!(h * 256 + l)), _ => None }
+            } else { navigate(&o.res["v"], path).cloned() });
             if got == Some(json!(x)) { okc += 1; } else if bad.len() < 8 {
                 bad.push(json!({"x": x, "observed": o.map(|o| o.res).unwrap_or(Value::Null)}));
             }
@@ -62,9 +66,13 @@ pub fn cmd_ciphers(args: &[String]) -> i32 {
         let r2 = <&TlsCipherSuite>::try_from(id).ok();
         let r3 = <&TlsCipherSuite>::try_from(TlsCipherSuiteID(id)).ok();
         let r4 = TlsCipherSuiteID(id).get_ciphersuite();
+        // routes agree when they return the same ROW: every column and derived size, compared as data (not through the
+        // type's own PartialEq, which a route-specific copy of a row could satisfy while differing in a column)
+        let cols = |c: &TlsCipherSuite| format!("{}|{}|{:?}|{:?}|{:?}|{:?}|{}|{:?}|{}|{:?}|{}|{}|{}", c.id.0, c.name, c.kx, c.au, c.enc, c.enc_mode,
+                                                c.enc_size, c.mac, c.mac_size, c.prf, c.enc_key_size(), c.mac_length(), c.enc_block_size());
         let same = |a: Option<&'static TlsCipherSuite>, b: Option<&'static TlsCipherSuite>| match (a, b) {
             (None, None) => true,
-            (Some(x), Some(y)) => core::ptr::eq(x, y) || x == y,
+            (Some(x), Some(y)) => cols(x) == cols(y),
             _ => false,
         };
         let agree = same(r1, r2) && same(r1, r3) && same(r1, r4);
@@ -127,8 +135,31 @@ pub fn cmd_ciphers(args: &[String]) -> i32 {
         let b = <&TlsCipherSuite>::try_from(s.as_str()).ok().map(|c| format!("{:04x}", c.id.0)).unwrap_or_else(|| "none".into());
         writeln!(out, "{}", json!({"kind": "name", "s": s, "from_name": a, "try_from": b})).unwrap();
     }
+    // the string domain is infinite: beyond the structured perturbations, a seeded pseudo-random sweep of names that are NOT in the
+    // registry (random edits of registry names and random token strings); all must be answered with "none".  With N queries a lookup
+    // that compares a b-bit digest instead of the name is exposed with probability 1 - exp(-352 N / 2^b) (N = 5e7, b = 32: 98 %).
+    let nrand: u64 = args.get(1).and_then(|x| x.parse().ok()).unwrap_or(50_000_000);
+    let listed: std::collections::HashSet<&str> = names.iter().map(|s| s.as_str()).collect();
+    let mut rng = crate::fuzz::Rng::new(0xC12);
+    let alphabet: &[u8] = b"ABCDEFGHIJKLMNOPQRSTUVWXYZ0123456789_";
+    let mut hits: Vec<Value> = Vec::new();
+    let mut buf = String::with_capacity(80);
+    for q in 0..nrand {
+        buf.clear();
+        let base = &names[(rng.next() % names.len() as u64) as usize];
+        match q % 3 {
+            0 => { buf.push_str(base); let n = 1 + rng.below(6); for _ in 0..n { buf.push(alphabet[rng.below(alphabet.len())] as char); } }
+            1 => { let cut = rng.below(base.len()); buf.push_str(&base[..cut]); let n = 1 + rng.below(8); for _ in 0..n { buf.push(alphabet[rng.below(alphabet.len())] as char); } }
+            _ => { buf.push_str("TLS_"); let n = 4 + rng.below(24); for _ in 0..n { buf.push(alphabet[rng.below(alphabet.len())] as char); } }
+        }
+        if listed.contains(buf.as_str()) { continue; }
+        if let Some(c) = TlsCipherSuite::from_name(&buf) {
+            if hits.len() < 5 { hits.push(json!({"s": buf.clone(), "id": format!("{:04x}", c.id.0)})); }
+        }
+    }
+    writeln!(out, "{}", json!({"kind": "random_names", "queries": nrand, "hits": hits})).unwrap();
     out.flush().unwrap();
-    eprintln!("sweep-ciphers: {} present, {} absent, {} name queries", present, absent, qs.len());
+    eprintln!("sweep-ciphers: {} present, {} absent, {} name queries, {} random names", present, absent, qs.len(), nrand);
     0
 }
 
